@@ -86,6 +86,31 @@ func (fr *frame) fmtOperand(verb byte, flags string, arg value) value {
 			}
 		}
 	}
+	// fmt.Formatter with a BigInt method (starlark.Int): render through math/big's Text
+	if itf.t != nil && hasMethod(prog, itf.t, "BigInt", 0, "*math/big.Int") {
+		base := 0
+		switch verb {
+		case 'd', 'v', 's':
+			base = 10
+		case 'x', 'X':
+			base = 16
+		case 'o':
+			base = 8
+		case 'b':
+			base = 2
+		}
+		if base != 0 {
+			bi, _ := fr.callMethod(itf, "BigInt")
+			bt := types.NewPointer(fr.i.prog.ImportedPackage("math/big").Type("Int").Type())
+			r, ok := fr.callMethod(iface{t: bt, v: bi}, "Text", base)
+			if ok {
+				if cs, isStr := r.(string); isStr && verb == 'X' {
+					return strings.ToUpper(cs)
+				}
+				return r
+			}
+		}
+	}
 	v := itf.v
 	switch x := v.(type) {
 	case string:
